@@ -164,6 +164,13 @@ func (e *Eval) copyOp(fr *Frame, cc *ssa.CallCommon, args []Val, st *State, cur,
 	return Val{T: n}
 }
 
+func (e *Eval) syncMapComps(base string) (string, string) {
+	dom, val := "$sm."+base+".dom", "$sm."+base+".val"
+	e.c.DeclComp(dom, "(Array Iface Bool)")
+	e.c.DeclComp(val, "(Array Iface Iface)")
+	return dom, val
+}
+
 // hardcoded semantics for a few library functions that operate on addresses
 // (mutexes, atomics, byte order). Everything else outside /repo needs an
 // `extern` contract.
@@ -286,6 +293,53 @@ func (e *Eval) hardcoded(fr *Frame, cc *ssa.CallCommon, fn *ssa.Function, args [
 		}
 		c.Set(st, comp, sto(h, "(s.arr "+s+")", a))
 		return ret()
+	case "(*sync.Map).Load", "(*sync.Map).LoadOrStore", "(*sync.Map).Store":
+		// sync.Map: a ghost map from interface values (compared with ==:
+		// pointers by address, structs by value) to interface values;
+		// sequential semantics (linearizability of sync.Map trusted)
+		c.Assume("sync.Map: sequential map from interface keys (Go ==) to interface values; linearizability trusted")
+		if args[0].A == nil || args[0].A.Kind != "cell" {
+			c.Unsupported("sync.Map that is not a package-level variable in %s", fr.fn)
+			return Outcome{}, false
+		}
+		dom, val := e.syncMapComps(args[0].A.Comp)
+		d, v := c.Get(st, dom), c.Get(st, val)
+		key := args[1].T
+		switch name {
+		case "(*sync.Map).Load":
+			ok := c.Define(site+".ok", "Bool", sel(d, key))
+			r := c.Define(site+".v", "Iface", ite(ok, sel(v, key), "(mk-iface 0 0)"))
+			return ret(Val{T: r}, Val{T: ok})
+		case "(*sync.Map).Store":
+			c.Set(st, dom, sto(d, key, "true"))
+			c.Set(st, val, sto(v, key, args[2].T))
+			return ret()
+		default:
+			loaded := c.Define(site+".loaded", "Bool", sel(d, key))
+			actual := c.Define(site+".actual", "Iface", ite(loaded, sel(v, key), args[2].T))
+			c.Set(st, dom, sto(d, key, "true"))
+			c.Set(st, val, sto(v, key, actual))
+			return ret(Val{T: actual}, Val{T: loaded})
+		}
+	case "(*sync/atomic.Uint64).Add", "(*sync/atomic.Uint64).Load", "(*sync/atomic.Uint64).Store":
+		c.Assume("sync/atomic: sequential semantics (linearizability trusted)")
+		if args[0].A == nil || args[0].A.Kind != "cell" {
+			c.Unsupported("atomic.Uint64 that is not a package-level variable in %s", fr.fn)
+			return Outcome{}, false
+		}
+		comp := "$au." + args[0].A.Comp
+		c.DeclComp(comp, bvSort(64))
+		switch name {
+		case "(*sync/atomic.Uint64).Add":
+			nv := c.Define(site, bvSort(64), "(bvadd "+c.Get(st, comp)+" "+args[1].T+")")
+			c.Set(st, comp, nv)
+			return ret(Val{T: nv})
+		case "(*sync/atomic.Uint64).Load":
+			return ret(Val{T: c.Get(st, comp)})
+		default:
+			c.Set(st, comp, args[1].T)
+			return ret()
+		}
 	case "(*sync.WaitGroup).Add":
 		c.Assume("sync.WaitGroup: ghost counter; Wait's blocking is not modelled")
 		c.DeclComp("$wg", "Int")
